@@ -11,7 +11,7 @@ use std::marker::PhantomData;
 use std::panic::{catch_unwind, AssertUnwindSafe};
 
 pub const PH: u32 = 8;
-const NTOK: u32 = 13;
+const NTOK: u32 = 15;
 
 fn leak(s: &str) -> &'static str {
     Box::leak(s.to_string().into_boxed_str())
@@ -41,6 +41,21 @@ fn meta_of(tok: u32, variant: bool) -> MetaType {
         10 => MetaType::new::<scale::Compact<u8>>(),
         11 => MetaType::new::<scale::Compact<u32>>(),
         12 => MetaType::new::<scale::Compact<u128>>(),
+        // real std identities that are NOT markers: `()` is as empty as PhantomData, but it is a member like any other
+        13 => {
+            if variant {
+                MetaType::new::<Box<()>>()
+            } else {
+                MetaType::new::<()>()
+            }
+        }
+        14 => {
+            if variant {
+                MetaType::new::<String>()
+            } else {
+                MetaType::new::<str>()
+            }
+        }
         _ => MetaType::new::<u8>(),
     }
 }
@@ -197,6 +212,20 @@ fn set_ty_meta<N>(f: FieldBuilder<MetaForm, N, TypeNotAssigned>, tok: u32, alt: 
         }
         11 => f.compact::<u32>(),
         12 => f.compact::<u128>(),
+        13 => {
+            if alt {
+                f.ty::<Box<()>>()
+            } else {
+                f.ty::<()>()
+            }
+        }
+        14 => {
+            if alt {
+                f.ty::<String>()
+            } else {
+                f.ty::<str>()
+            }
+        }
         _ => f.ty::<u8>(),
     }
 }
@@ -531,7 +560,7 @@ fn gen_fieldcalls(r: &mut Rng, portable: bool, named: bool) -> FieldCalls {
     let ty = if portable {
         gen::wild_id(r)
     } else {
-        *r.pick(&[0u32, 1, 2, 3, 4, 5, 6, 7, 8, 8, 8, 10, 11, 12])
+        *r.pick(&[0u32, 1, 2, 3, 4, 5, 6, 7, 8, 8, 8, 10, 11, 12, 13, 13, 14])
     };
     FieldCalls {
         pre: gen_frees(r, portable, true),
@@ -558,7 +587,7 @@ fn gen_tfrees(r: &mut Rng, portable: bool) -> Vec<TFree> {
                     (0..k)
                         .map(|_| {
                             let t = if r.chance(2, 3) {
-                                Some(if portable { gen::wild_id(r) } else { *r.pick(&[0u32, 1, 2, 3, 8, 10]) })
+                                Some(if portable { gen::wild_id(r) } else { *r.pick(&[0u32, 1, 2, 3, 8, 10, 13]) })
                             } else {
                                 None
                             };
@@ -626,7 +655,7 @@ pub fn build(r: &mut Rng, n: u64, _thorough: bool, out: &mut Out) {
         case += 1;
         if i % 5 == 0 {
             let k = r.below(7);
-            let toks: Vec<(u32, bool)> = (0..k).map(|_| (*r.pick(&[0u32, 1, 2, 8, 8, 10, 3]), r.chance(1, 2))).collect();
+            let toks: Vec<(u32, bool)> = (0..k).map(|_| (*r.pick(&[0u32, 1, 2, 8, 8, 10, 3, 13, 13, 14]), r.chance(1, 2))).collect();
             out.line(&format!("build {} {}", case, run_tuple(&toks)));
             case += 1;
         }
